@@ -36,7 +36,7 @@ func newWSHandler(host string, dial dialFunc, conn gkm.Gauge) http.Handler {
 			return
 		}
 
-		in, _, err := hj.Hijack()
+		in, inbuf, err := hj.Hijack()
 		if err != nil {
 			log.Printf("[ERROR] Hijack error for %s. %s", r.URL, err)
 			http.Error(w, "hijack error", http.StatusInternalServerError)
@@ -94,16 +94,41 @@ func newWSHandler(host string, dial dialFunc, conn gkm.Gauge) http.Handler {
 		out.SetReadDeadline(time.Time{})
 
 		errc := make(chan error, 2)
-		cp := func(dst io.Writer, src io.Reader) {
+		cp := func(dst net.Conn, src io.Reader) {
 			_, err := io.Copy(dst, src)
+			// src has ended: pass the end of the stream on so that the
+			// peer can finish, and leave the other direction running
+			closeWrite(dst)
 			errc <- err
 		}
 
-		go cp(out, in)
+		// the server may have read ahead of the upgrade request: what it
+		// holds in its buffer belongs to the tunnel as well
+		var src io.Reader = in
+		if inbuf != nil && inbuf.Reader != nil {
+			src = inbuf.Reader
+		}
+
+		go cp(out, src)
 		go cp(in, out)
+		// the tunnel is finished when both directions are: a client which
+		// half-closes after sending still gets the reply
 		err = <-errc
+		if err2 := <-errc; err == nil || err == io.EOF {
+			err = err2
+		}
 		if err != nil && err != io.EOF {
 			log.Printf("[INFO] WS error for %s. %s", r.URL, err)
 		}
 	})
+}
+
+// closeWrite tells the peer of c that no more data will come: connections
+// which can be half-closed keep their read side open, all others are closed.
+func closeWrite(c net.Conn) {
+	if cw, ok := c.(interface{ CloseWrite() error }); ok {
+		cw.CloseWrite()
+		return
+	}
+	c.Close()
 }
